@@ -135,7 +135,7 @@ static const char *op_name(int code)
 enum { CFG_PROP = 0, CFG_TOPO, CFG_INQ, CFG_OUTQ, CFG_XFERQ, CFG_MUTEX, CFG_CHAIN, CFG_SLOW,
        CFG_ATTACH, CFG_UREF_POOL, CFG_UDICT_POOL, CFG_UBUF_POOL, CFG_PUMP_POOL, CFG_MSG_POOL,
        CFG_SRC_COUNT, CFG_SRC_FDCHANGE, CFG_FWD_EVERY, CFG_EINTR, CFG_SPURIOUS, CFG_PATIENT,
-       CFG_PROVIDER, CFG_NPROD, CFG_NOLOOP };
+       CFG_PROVIDER, CFG_NPROD, CFG_NOLOOP, CFG_ALLOCFAULT };
 enum { TOPO_WSINK = 0, TOPO_WLIN, TOPO_WSRC, TOPO_QUEUE, TOPO__N };
 
 /* --------------------------------------------------------------- globals */
@@ -193,6 +193,7 @@ static const uint16_t pool_depth[] = { 0, 0, 1, 2, 8 };
  * application's configuration against its own load, nothing is judged after
  * that point (DESIGN.md 7.4) */
 static bool short_xferq, xfer_overflow;
+static bool construction_fault;        /* an allocation failed while the worker pipe was built */
 static bool checking(void) { return !sim_violation_class() && !xfer_overflow; }
 #define control_failed(...) do { \
         if (short_xferq) { xfer_overflow = true; SIM_PROBE("thr_short_xfer_queue_overflow"); } \
@@ -978,6 +979,7 @@ static void build_worker(void)
     unsigned xferq = xferqs[(uint64_t)plan->cfg[CFG_XFERQ] % 9];
     short_xferq = xferq != 255;
     xfer_overflow = false;
+    construction_fault = false;
     if ((uint64_t)plan->cfg[CFG_MUTEX] & 1) {
         mutex = umutex_pthread_alloc(NULL);
         /* layout of struct umutex_pthread (lib/upipe-pthread/umutex_pthread.c) */
@@ -1018,7 +1020,21 @@ static void build_worker(void)
     }
 
     tagprobe_init(&probe_handle, 0, handle_catch, uprobe_use(&probe_app.uprobe));
+    /* one of the structures the worker pipe is made of cannot be allocated */
+    static const char *const allow[] = { "_upipe_work_alloc", "_upipe_xfer_alloc", "_upipe_qsink_alloc", "_upipe_qsrc_alloc", NULL };
+    sim_alloc_set_allow_list(allow);
+    int fault = (int)((uint64_t)plan->cfg[CFG_ALLOCFAULT] % 8);
     int attach_mode = (int)((uint64_t)plan->cfg[CFG_ATTACH] % 3);
+    /* (with the event loop frozen during the construction the application is
+     * meant to attach it through the handle afterwards; a refused construction
+     * leaves no handle to do that with: the transfer pipes already made never
+     * hear that their remote pipe died. Not judged: no failure in that mode) */
+    if (attach_mode)
+        fault = 0;
+    if (fault) {
+        sim_alloc_fault_points(false);      /* (buffer memory of the other thread is not what fails here) */
+        sim_alloc_arm(fault);
+    }
     if (attach_mode)
         uprobe_throw(logger, NULL, UPROBE_FREEZE_UPUMP_MGR);
     switch (topo) {
@@ -1036,10 +1052,20 @@ static void build_worker(void)
         break;
     }
     transferred = true;
+    if (sim_alloc_disarm() == 0 && fault) {
+        construction_fault = true;
+        SIM_PROBE("fault_alloc_in_worker_construction");
+    }
     upipe_mgr_release(work_mgr);
     if (attach_mode)
         uprobe_throw(logger, NULL, UPROBE_THAW_UPUMP_MGR);
     if (handle == NULL) {
+        if (construction_fault) {
+            /* refused: everything given to the allocator (the remote pipe, the
+             * probes) has to be let go by it, the thread has to end */
+            SIM_PROBE("thr_worker_construction_refused");
+            return;
+        }
         control_failed( "worker pipe allocation failed");
         return;
     }
@@ -1560,6 +1586,7 @@ static void gen(const char *pr, struct sim_rng *r, struct sim_plan *p)
     p->cfg[CFG_PROVIDER] = sim_rng_below(r, 3);
     p->cfg[CFG_NPROD] = sim_rng_below(r, 2);
     p->cfg[CFG_NOLOOP] = sim_rng_chance(r, 1, 5);
+    p->cfg[CFG_ALLOCFAULT] = sim_rng_chance(r, 1, 6) ? 1 + sim_rng_below(r, 6) : 0;
     int topo_ = (int)p->cfg[CFG_TOPO];
     if (topo_ == TOPO_QUEUE) {
         gen_queue(r, p, which);
